@@ -124,6 +124,14 @@ func genHistory(r *Rng, seed uint64, tier string) *C15Spec {
 			op.I = pick(r, []int{1, 2, 5, 200})
 			op.F = pick(r, []float64{1e-9, 1e-3, 0.5})
 		}
+		if op.Op == "set" && op.Field == "Regroup" {
+			// evaluate, regroup into a colliding sibling, evaluate again: a memo keyed too coarsely
+			// serves the first recipe's entry to the second
+			s.Ops = append(s.Ops, HOp{Op: pick(r, []string{"entropy", "gen", "alphabet"}), T: t}, op,
+				HOp{Op: "alphabet", T: t}, HOp{Op: "entropy", T: t}, HOp{Op: "sp", T: t}, HOp{Op: "gen", T: t})
+			i += 5
+			continue
+		}
 		s.Ops = append(s.Ops, op)
 	}
 	return s
